@@ -16,7 +16,7 @@ RULE = ("files = interleavings of directive/comment/blank/feature lines: all seq
         "inferred and supplied dialect; non-trivial = a directive sits after feature number checklines+1 (beyond the "
         "inspection window) or a FASTA section is present; distinct by (file text, checklines, input form)")
 REQUIRED = ["pairs of iterators with overlapping lifetimes", "DataIterator.directives compared", "db.directives compared", "reopened directives compared",
-            "directives beyond the window observed", "files with FASTA section", "directives compared after update + delete + reopen"]
+            "directives beyond the window observed", "files with FASTA section", "directives compared after update + delete + reopen", "files with bare CR line ends"]
 ASSUMPTIONS = [
     "the FASTA section starts at a line that is exactly '##FASTA' or begins with '>'",
     "blank lines are truly empty (whitespace-only lines are not generated)",
@@ -54,7 +54,9 @@ def build(kinds, fasta=None):
                           # the marker itself occurring again inside the text; banner lines
                           "##note %d: see the ##FASTA line ## and #this" % i, "####################", "#######",
                           # text that merely begins like the FASTA marker
-                          "##FASTA-source genome%d.fa.gz" % i, "##FASTAfile %d" % i][(i + len(kinds)) % 12])
+                          "##FASTA-source genome%d.fa.gz" % i, "##FASTAfile %d" % i,
+                          # the marker is '##FASTA' exactly: other letter cases are ordinary directives
+                          "##fasta", "##Fasta"][(i + len(kinds)) % 14])
         elif k == "C":
             # comment shapes: ordinary, '#!' pragma-style, bare '#', '# ##'
             lines.append(["#comment %d\twith\ttabs ##not-a-directive" % i, "#!genome-build GRCh%d" % i, "#", "# ## not a directive",
@@ -85,6 +87,8 @@ def execute(ctx, case):
     ck = case["checklines"]
     eol = case.get("eol", "\n")
     text = eol.join(lines) + (eol if case.get("final_eol", True) else "")
+    if eol == "\r":
+        ctx.mon("files with bare CR line ends")
     exp_dir, exp_n = classify(lines)
     supplied = case.get("supplied_dialect", False)
     kw = {"checklines": ck}
@@ -254,6 +258,8 @@ def run(ctx):
                 lines = build(kinds, fasta)
                 case = {"kind": "file", "lines": lines, "checklines": ck, "input": "string" if i % 5 == 0 else ("gz" if i % 5 == 1 else "path"),
                         "supplied_dialect": i % 7 == 0}
+                if i % 11 == 0 and case["input"] != "gz":
+                    case["eol"] = "\r"      # classic Mac line ends (text files only: gzip input is split on LF)
                 execute(ctx, case)
                 n += 1
                 if fasta:
@@ -297,6 +303,8 @@ def run(ctx):
         case = {"kind": "file", "lines": lines, "checklines": ck, "input": rng.choice(["path", "path", "string", "gz"]),
                 "eol": "\r\n" if rng.random() < 0.15 else "\n", "final_eol": rng.random() < 0.9,
                 "supplied_dialect": rng.random() < 0.1}
+        if case["input"] != "gz" and rng.random() < 0.08:
+            case["eol"] = "\r"
         execute(ctx, case)
         if fasta:
             ctx.mon("files with FASTA section")
@@ -310,6 +318,6 @@ MANIFEST = {
             "observation points of the real code (iterator after full iteration, database after import, reopened database "
             "and the raw directives table read with plain sqlite3); feature counts show that comment, blank, FASTA and "
             "post-FASTA lines produce nothing. All interleavings of the four line kinds up to a length bound are executed "
-            "for four checklines values; longer files are random with directives placed after the inspection window. Input forms are path, gzip path and from_string, LF and CRLF; directive/comment texts include bare '##', '#!' pragmas and characters str.splitlines() splits on; the thorough tier adds a file with more directives than SQLite accepts as bound parameters.",
+            "for four checklines values; longer files are random with directives placed after the inspection window. Input forms are path, gzip path and from_string, LF, CRLF and (text files) bare CR; directive/comment texts include bare '##', '#!' pragmas and characters str.splitlines() splits on; the thorough tier adds a file with more directives than SQLite accepts as bound parameters.",
     "note": "Trusted: the reference classifier. Whitespace-only lines and '##FASTA' with trailing blanks are not generated.",
 }
